@@ -23,6 +23,8 @@ FIX = [
     ("01040000", "Power on \\\"complete\\\"", "", "states.cpp", 70),
     ("10**00**", "Mismatch %d %d %d", "2", "m.cpp", 80),
     ("1001****", "Out of range params %d", "0, 5, 3, 9", "m.cpp", 90),
+    ("30******", "Duty cycle now %d%", "4", "pc.cpp", 95),
+    ("31******", "Mode %y set, margin 5%", "3", "pc.cpp", 96),
 ]
 
 
@@ -73,7 +75,7 @@ HARNESSES = [
     {"fn": "h_timestamp", "cases": ["h%d" % h for h in range(19)] + ["ffff"], "quick_cases": ["h0", "h9", "h10", "h18", "ffff"],
      "timeout": {"quick": 90, "thorough": 300}},
     {"fn": "h_first_match", "cases": ["hi:%X" % n for n in (0x0, 0x1, 0xE, 0xF)] + ["stub"], "quick_cases": ["hi:0", "hi:E", "hi:F", "stub"], "timeout": {"quick": 120, "thorough": 400}},
-    {"fn": "h_message", "cases": ["E308", "0200", "10m", "1001", "F20C", "quote", "E226"], "quick_cases": ["E308", "1001", "0200", "E226"],
+    {"fn": "h_message", "cases": ["E308", "0200", "10m", "1001", "F20C", "quote", "E226", "30pc", "31y"], "quick_cases": ["E308", "1001", "0200", "E226", "30pc", "31y"],
      "timeout": {"quick": 90, "thorough": 300}},
     {"fn": "h_matches", "cases": MATCH_CASES, "quick_cases": MATCH_CASES[:2] + MATCH_CASES[-1:], "timeout": {"quick": 120, "thorough": 600}},
 ]
@@ -82,7 +84,7 @@ BOUNDS = {"framing": "0..2 entries followed by a tail of 0..7 bytes; timestamp, 
           "first match": "synthetic table of 10 overlapping patterns with the PTE symbolic per leading nibble; a table of 6 "
                          "stub entries whose match results are symbolic booleans",
           "matches": "every distinct pattern of both shipped tables (%d), PTE symbolic over all 32-bit values" % len(PATS),
-          "message": "parameter bytes symbolic for 6 synthetic entries (params, %%c, mismatch, out-of-range params, escaped quote)"}
+          "message": "parameter bytes symbolic for 6 synthetic entries (params, %%c, mismatch, out-of-range params, escaped quote, descriptions that are not valid format strings)"}
 ASSUMPTIONS = ["open() of the header file replaced by an in-memory file for the synthetic table (E5)",
                "CrossHair's model of re.fullmatch with IGNORECASE on a symbolic 8-character string"]
 OUTSIDE = ["arbitrary tables (regex compilation of a symbolic pattern)", "more than 2 entries per buffer"]
@@ -263,8 +265,8 @@ def expected_message(idx, b):
     ps = [p for p in ps if 1 <= p <= 4]
     vals = [b[p - 1] for p in ps]
     specs = re.findall(r"%(?:0?\d*)[dcxX]", msg)
-    if len(specs) != len(vals):
-        return msg                      # format / argument mismatch: the raw format
+    if len(specs) != len(vals) or "%" in re.sub(r"%(?:0?\d*)[dcxX]|%%", "", msg):
+        return msg                      # format / argument mismatch or not a valid format at all: the raw format
     out, pos, k = [], 0, 0
     for m in re.finditer(r"%(0?)(\d*)([dcxX])", msg):
         out += [ord(c) for c in msg[pos:m.start()]]
@@ -295,7 +297,7 @@ def h_message() -> bool:
     post: _
     """
     base = {"E308": 0xE3080000, "0200": 0x02000000, "10m": 0x10000000, "1001": 0x10010000, "F20C": 0xF20C0000, "quote": 0x01040000,
-            "E226": 0xE2002600}[CASE]
+            "E226": 0xE2002600, "30pc": 0x30110000, "31y": 0x31110000}[CASE]
     lo = sym_bytes("lo", 2)
     b = [base >> 24, (base >> 16) & 0xFF, lo[0], lo[1]]
     if CASE == "10m":
